@@ -10,8 +10,8 @@ TABLE = [
     ("SRV_CACHE_INDEXING", "ntp-proto/src/server.rs", r"self\.elements\[" + _BEFORE_TESTS, "count"),
     ("SRV_SLICE_TO_LENGTH", "ntp-proto/src/server.rs", r"cursor\.into_inner\(\)\[\.\.length as _\]" + _BEFORE_TESTS, "count"),
     ("SRV_MODULO", "ntp-proto/src/server.rs", r"as usize % self\.elements\.len\(\)" + _BEFORE_TESTS, "count"),
-    # registration calls in `handle` itself (success and serialisation failure); those of handle_inner are one per
-    # early exit and their number differs between the pinned tree (5) and the repaired one (6), so they are not pinned
+    ("SRV_REGISTER_CALLS", "ntp-proto/src/server.rs", r"stats_handler\s*\.register\(" + _BEFORE_TESTS, "count"),
+    # of which in `handle` itself (success and serialisation failure); the others are one per early exit of handle_inner
     ("SRV_HANDLE_REGISTER_CALLS", "ntp-proto/src/server.rs", r"stats_handler\s*\.register\((?=.*\n    fn handle_inner<)", "count"),
     ("SRV_INTENDED_ACTION_CALLS", "ntp-proto/src/server.rs", r"self\.intended_action\(" + _BEFORE_TESTS, "count"),
     ("SRV_IS_ALLOWED_CALLS", "ntp-proto/src/server.rs", r"\.is_allowed\(" + _BEFORE_TESTS, "count"),
